@@ -9,6 +9,7 @@ import (
 	"path/filepath"
 
 	"github.com/rminnich/go9p"
+	"github.com/rminnich/go9p/vs"
 )
 
 // C14: file data read and written through client and Ufs is exact.
@@ -578,6 +579,96 @@ func c14Held(msize uint32, dotu bool) Scenario {
 	}}
 }
 
+// c14TagPipelined: the client's asynchronous interface - several reads (then several
+// writes) outstanding at once on one Tag, all under the same 9P tag. Every completion
+// pairs a request with the bytes of *that* request's range; after the writes the file
+// holds exactly what was written.
+func c14TagPipelined(msize uint32, depth int, dotu bool) Scenario {
+	return Scenario{Name: fmt.Sprintf("tag-pipelined reads and writes depth=%d msize=%d dotu=%v", depth, msize, dotu), Run: func(rc *RunCtx) *Result {
+		res := &Result{Exhaustive: true}
+		base, root := scratchDir("c14t")
+		defer os.RemoveAll(base)
+		u := int(msize) - 24
+		content := pattern(6*u+5, 3)
+		os.WriteFile(filepath.Join(root, "big"), content, 0o644)
+		os.WriteFile(filepath.Join(root, "out"), nil, 0o644)
+		want := make([]byte, 0)
+		bad := withUfsClient(root, msize, dotu, func(c *go9p.Clnt, h *SrvH) string {
+			f, err := c.FOpen("big", go9p.OREAD)
+			if err != nil {
+				return err.Error()
+			}
+			o, err := c.FOpen("out", go9p.OWRITE)
+			if err != nil {
+				return err.Error()
+			}
+			done := make(chan *go9p.Req, 4)
+			tag := c.TagAlloc(done)
+			for round := 0; round < 3; round++ {
+				for i := 0; i < depth; i++ {
+					off := (i*37 + round*11) % (len(content) + 3)
+					cnt := 1 + (i*5+round)%u
+					if err := tag.Read(f.Fid, uint64(off), uint32(cnt)); err != nil {
+						return "Tag.Read: " + err.Error()
+					}
+				}
+				for i := 0; i < depth; i++ {
+					r := vs.Recv(done)
+					res.Evals++
+					if r.Err != nil || r.Rc == nil {
+						return fmt.Sprintf("a pipelined read failed: %v", r.Err)
+					}
+					off, cnt := int(r.Tc.Offset), int(r.Tc.Count)
+					lo, hi := off, off+cnt
+					if lo > len(content) {
+						lo = len(content)
+					}
+					if hi > len(content) {
+						hi = len(content)
+					}
+					if !bytes.Equal(r.Rc.Data, content[lo:hi]) {
+						return fmt.Sprintf("%d reads outstanding on one Tag: the completion of the read at offset %d count %d carries %d bytes that are not the file's bytes %d..%d", depth, off, cnt, len(r.Rc.Data), lo, hi)
+					}
+					tag.ReqFree(r)
+				}
+			}
+			// writes: consecutive chunks, pipelined; each completion reports its own chunk's size
+			pos := 0
+			for i := 0; i < depth; i++ {
+				chunk := pattern(1+(i*3)%u, 50+i)
+				if err := tag.Write(o.Fid, chunk, uint64(pos)); err != nil {
+					return "Tag.Write: " + err.Error()
+				}
+				want = append(want, chunk...)
+				pos += len(chunk)
+			}
+			for i := 0; i < depth; i++ {
+				r := vs.Recv(done)
+				res.Evals++
+				if r.Err != nil || r.Rc == nil {
+					return fmt.Sprintf("a pipelined write failed: %v", r.Err)
+				}
+				if r.Rc.Count != r.Tc.Count {
+					return fmt.Sprintf("%d writes outstanding on one Tag: the completion of the write of %d bytes at offset %d reports %d bytes written", depth, r.Tc.Count, r.Tc.Offset, r.Rc.Count)
+				}
+				tag.ReqFree(r)
+			}
+			return ""
+		})
+		if bad == "" {
+			if got, _ := os.ReadFile(filepath.Join(root, "out")); !bytes.Equal(got, want) {
+				bad = fmt.Sprintf("after %d pipelined writes the file holds %d bytes, %d were written (first difference at %d)", depth, len(got), len(want), firstDiff(got, want))
+			}
+		}
+		res.Nontrivial = res.Evals
+		if bad != "" {
+			res.Findings = append(res.Findings, Finding{Sig: "C14/tag-pipelined/" + sigWords(bad), Msg: bad})
+		}
+		res.Samples = append(res.Samples, fmt.Sprintf("3 rounds of %d reads at scattered offsets, then %d consecutive writes, all outstanding at once on one Tag", depth, depth))
+		return res
+	}}
+}
+
 func c14Scenarios(tier string) []Scenario {
 	var out []Scenario
 	msizes := []uint32{32, 40, 152}
@@ -625,6 +716,7 @@ func c14Scenarios(tier string) []Scenario {
 	out = append(out, c14MisreportedSize(64, false), c14MisreportedSize(8216, true))
 	out = append(out, c14ManyFiles(40, false), c14ManyFiles(152, true))
 	out = append(out, c14Held(40, false), c14Held(152, true), c14Held(4120, false))
+	out = append(out, c14TagPipelined(40, 2, true), c14TagPipelined(152, 5, false), c14TagPipelined(4120, 30, true))
 	return out
 }
 
